@@ -15,7 +15,8 @@ RULE = (
     'symbols of apply; every ITE triple (2^24) per order; all pairs for the '
     'dd.autoref Function operators; then the same on a manager that was '
     'emptied, collected, rebuilt in another sequence and level-swapped with '
-    'a warm cache; random histories over 4-8 variables. A case is '
+    'a warm cache; random histories over 4-8 variables, half of them '
+    'with dynamic reordering enabled at a tiny threshold. A case is '
     'non-trivial when no operand is a constant; enumerated cases are '
     'distinct by construction, random ones are counted by hash of '
     '(order, operator, operand tables).')
@@ -46,11 +47,13 @@ def plan(tier, seed):
     for k in range(nr):
         specs.append(dict(kind='random', sub=k, n=4 + k % 5,
                           steps=2000 if tier == 'thorough' else 350,
-                          auto=(k % 4 == 3), hashseed=k))
+                          auto=(k % 4 == 3), dynamic=(k % 4 in (1, 3)),
+                          hashseed=k))
     meta = dict(
         rule=RULE,
         require=['binary_results', 'ite_results', 'function_op_results',
-                 'history_results', 'steps', 'cache_entries_checked'],
+                 'history_results', 'steps', 'cache_entries_checked',
+                 'dynamic_histories'],
         assumptions=[
             'truth-table model in vf/oracle.py (independent of dd)',
             'operands are held (incref / live Function) during the call',
@@ -355,10 +358,30 @@ def random_history(ctx, spec):
     if kind == 'autoref':
         reg = monitors.HandleRegistry()
         reg.install()
-    w = World(ctx, rng, names, kind=kind, strict=True, registry=reg)
+    import dd.bdd as _b
+    dynamic = spec.get('dynamic', False)
+    starts0 = _b.REORDER_STARTS
+    if dynamic:
+        # the connectives called directly (not through `add_expr`) while
+        # the library reorders by itself in the middle of them
+        _b.REORDER_STARTS = 4 + spec['sub'] % 4
+        ctx.counters['dynamic_histories'] += 1
+    try:
+        _random_history(ctx, spec, rng, names, kind, reg, dynamic)
+    finally:
+        _b.REORDER_STARTS = starts0
+        if reg:
+            reg.uninstall()
+
+
+def _random_history(ctx, spec, rng, names, kind, reg, dynamic):
+    w = World(ctx, rng, names, kind=kind, strict=True, registry=reg,
+              reordering=dynamic)
     menu = dict(build=5, apply=14, apply_quant=2, ite=8, drop=5, gc=3,
                 swap=3 if kind == 'bdd' else 0, sift=1, reorder_to=1,
                 dup=1, clone=2 if kind == 'bdd' else 0, **{'not': 2})
+    if dynamic:
+        menu.update(rearm=3, clone=0, fop=6 if kind == 'autoref' else 0)
     for k in range(spec['steps']):
         ok, res = ctx.guard(w.site, w.step, menu, case=dict(
             spec=spec, step=k, tail=w.log[-6:]))
@@ -373,8 +396,6 @@ def random_history(ctx, spec):
     ctx.sample(dict(kind='random', n=spec['n'], manager=kind,
                     last_steps=[list(map(str, d)) for d in w.log[-5:]]))
     ctx.guard('shutdown', w.finish)
-    if reg:
-        reg.uninstall()
 
 
 def run_shard(ctx, spec):
